@@ -103,3 +103,51 @@ func Explore(mk func() (procs []func(yield func()), after func(schedule []int, p
 	rec(nil)
 	return runs, capped
 }
+
+// Pairs explores, for every ordered pair (i, j) of n calls, every interleaving of call i and call j at the
+// points where they call yield, and compares what each returns with what it returns when run alone
+// (yield doing nothing). call must be a pure function of i apart from the shared state of the code under
+// test; before, if not nil, runs before each interleaving (a history of earlier calls). report is called
+// for every interleaving in which a result differs or a call panics. maxRunsPerPair bounds one pair.
+func Pairs(n int, call func(i int, yield func()) string, before func(), report func(i, j int, schedule []int, what string), maxRunsPerPair int) (pairs, runs int, capped bool) {
+	solo := make([]string, n)
+	for i := range solo {
+		solo[i] = call(i, func() {})
+	}
+	for i := 0; i < n; i++ {
+		for j := 0; j < n; j++ {
+			i, j := i, j
+			pairs++
+			k, c := Explore(func() ([]func(func()), func([]int, any)) {
+				if before != nil {
+					before()
+				}
+				var ra, rb string
+				procs := []func(func()){
+					func(y func()) { ra = call(i, y) },
+					func(y func()) { rb = call(j, y) },
+				}
+				return procs, func(schedule []int, pan any) {
+					switch {
+					case pan != nil:
+						report(i, j, schedule, fmt.Sprintf("panic: %v", pan))
+					case ra != solo[i]:
+						report(i, j, schedule, fmt.Sprintf("first call returns %q when overlapped, %q alone", clip(ra), clip(solo[i])))
+					case rb != solo[j]:
+						report(i, j, schedule, fmt.Sprintf("second call returns %q when overlapped, %q alone", clip(rb), clip(solo[j])))
+					}
+				}
+			}, maxRunsPerPair)
+			runs += k
+			capped = capped || c
+		}
+	}
+	return pairs, runs, capped
+}
+
+func clip(s string) string {
+	if len(s) > 300 {
+		return s[:300] + "..."
+	}
+	return s
+}
